@@ -438,6 +438,21 @@ func ForallPat(vars []*Term, body *Term, pats ...*Term) *Term {
 	return t
 }
 
+// ForallPatExact: like ForallPat, but instantiated only at reads of exactly the
+// pattern's array term (used for per-version typing axioms, which would otherwise
+// match every read of an array of that sort).
+func ForallPatExact(vars []*Term, body *Term, pats ...*Term) *Term {
+	if len(vars) == 0 || body.IsTrue() || body.IsFalse() {
+		return body
+	}
+	t := mk("forall", "exact", SBool, nil, vars, append([]*Term{body}, pats...)...)
+	if t.Pats == nil && len(pats) > 0 {
+		t.Pats = pats
+		t.Args = t.Args[:1]
+	}
+	return t
+}
+
 func Exists(vars []*Term, body *Term) *Term {
 	if len(vars) == 0 || body.IsTrue() || body.IsFalse() {
 		return body
@@ -477,7 +492,11 @@ func Subst(t *Term, m map[*Term]*Term) *Term {
 				}
 			}
 			if ch {
-				r = ForallPat(t.Bound, args[0], pats...)
+				if t.Name == "exact" {
+					r = ForallPatExact(t.Bound, args[0], pats...)
+				} else {
+					r = ForallPat(t.Bound, args[0], pats...)
+				}
 			}
 		} else if ch {
 			r = rebuild(t, args)
@@ -523,7 +542,7 @@ func rebuild(t *Term, args []*Term) *Term {
 func quoteSym(n string) string {
 	simple := true
 	for _, c := range n {
-		if !(c >= 'a' && c <= 'z' || c >= 'A' && c <= 'Z' || c >= '0' && c <= '9' || c == '_' || c == '.' || c == '$' || c == '@' || c == '!' || c == '#') {
+		if !(c >= 'a' && c <= 'z' || c >= 'A' && c <= 'Z' || c >= '0' && c <= '9' || c == '_' || c == '.' || c == '$' || c == '@' || c == '!') {
 			simple = false
 			break
 		}
